@@ -284,7 +284,7 @@ def run(chk, tier):
     chk.part("structs", shapes="tuple/named x 1..%d fields" % nmax, typings=["distinct", "same", "generic<T>", "generic<T> with a where-clause on the type", "fields that support the operator with the scalar only (concrete and generic<T>)"],
              modes=["scalar Mul-like", "scalar Mul-like spelled `not(forward)`", "forward"], programs=len(cases))
     e0 = len(cases)
-    vk = ["unit", "t1", "t2", "n2"] + (["n1", "t3"] if thorough else [])
+    vk = ["unit", "t1", "t2", "n2"] + (["n1", "t3", "t0", "n0"] if thorough else [])
     combos = [k for n in range(1, (3 if thorough else 2) + 1) for k in itertools.product(vk, repeat=n)]
     # variants with an EMPTY field list (`V()`, `V {}`) are not unit variants: they combine like any other variant
     ek = ["t0", "n0"]
